@@ -1129,6 +1129,7 @@ func (bp *boundsProver) houdiniGlobal(fns []*ssa.Function) {
 	}
 	for round := 0; round < 30; round++ {
 		bp.resMemo = nil // derived result contracts are proved under the current assumptions: recompute
+		bp.foundMemo = nil
 		// phi invariants depend on the global assumptions: recompute each round
 		for _, f := range fns {
 			fb := bp.forFn(f)
@@ -1237,6 +1238,7 @@ func (bp *boundsProver) houdiniGlobal(fns []*ssa.Function) {
 		}
 	}
 	bp.resMemo = nil
+	bp.foundMemo = nil
 	for _, f := range fns {
 		fb := bp.forFn(f)
 		fb.phiInv = map[*ssa.Phi][]phiCand{}
@@ -1485,4 +1487,124 @@ func unsignedMax(t types.Type) int64 {
 		return 1<<32 - 1
 	}
 	return 0
+}
+
+// foundContract: a fact about integer result #K of a (…, bool) function that holds at every return whose
+// bool result is not the constant false. Kind 0: result ≥ 0; 1: result < len(param P); 2: result <
+// len(param P [result J]).
+type foundContract struct {
+	K, Kind, P, J int
+	desc          string
+}
+
+func (bp *boundsProver) foundContracts(fn *ssa.Function) []foundContract {
+	if bp.foundMemo == nil {
+		bp.foundMemo = map[*ssa.Function][]foundContract{}
+	}
+	if v, ok := bp.foundMemo[fn]; ok {
+		return v
+	}
+	bp.foundMemo[fn] = nil
+	res := fn.Signature.Results()
+	n := res.Len()
+	if n < 2 || len(fn.Blocks) == 0 || !isBoolType(res.At(n-1).Type()) {
+		return nil
+	}
+	var rets []*ssa.Return
+	for _, b := range fn.Blocks {
+		ret, ok := b.Instrs[len(b.Instrs)-1].(*ssa.Return)
+		if !ok || len(ret.Results) != n {
+			continue
+		}
+		if c, ok := ret.Results[n-1].(*ssa.Const); ok && c.Value != nil && !constant.BoolVal(c.Value) {
+			continue
+		}
+		rets = append(rets, ret)
+	}
+	if len(rets) == 0 {
+		return nil
+	}
+	fb := bp.forFn(fn)
+	holds := func(goal func(ret *ssa.Return) (constraint, bool)) bool {
+		for _, ret := range rets {
+			g, ok := goal(ret)
+			if !ok {
+				return false
+			}
+			if ok, _ := fb.prove(ret, []constraint{g}); !ok {
+				return false
+			}
+		}
+		return true
+	}
+	var out []foundContract
+	for k := 0; k < n-1; k++ {
+		if !isIntType(res.At(k).Type()) {
+			continue
+		}
+		k := k
+		if holds(func(ret *ssa.Return) (constraint, bool) {
+			v, ok := fb.linOf(ret.Results[k], ret, 0)
+			return geq(v, linConst(0), "result ≥ 0"), ok
+		}) {
+			out = append(out, foundContract{K: k, Kind: 0, desc: fmt.Sprintf("result #%d is not negative", k)})
+		}
+		for pi, prm := range fn.Params {
+			if kindOf(prm.Type()) != KSlice && !isStringType(prm.Type()) {
+				continue
+			}
+			pi, prm := pi, prm
+			if holds(func(ret *ssa.Return) (constraint, bool) {
+				v, ok := fb.linOf(ret.Results[k], ret, 0)
+				return gt(fb.lenOf(prm, ret, 0), v, "result below len(param)"), ok
+			}) {
+				out = append(out, foundContract{K: k, Kind: 1, P: pi, desc: fmt.Sprintf("result #%d is a position in argument #%d", k, pi)})
+				continue
+			}
+			// a position in the element of the parameter selected by another result
+			sl, ok := prm.Type().Underlying().(*types.Slice)
+			if !ok || kindOf(sl.Elem()) != KSlice && !isStringType(sl.Elem()) {
+				continue
+			}
+			for j := 0; j < n-1; j++ {
+				if j == k || !isIntType(res.At(j).Type()) {
+					continue
+				}
+				j := j
+				if holds(func(ret *ssa.Return) (constraint, bool) {
+					v, ok := fb.linOf(ret.Results[k], ret, 0)
+					rj, okj := fb.linOf(ret.Results[j], ret, 0)
+					if !ok || !okj {
+						return constraint{}, false
+					}
+					// an element prm[idx] read in a block dominating the return with idx = result j
+					for _, b := range fn.Blocks {
+						if !(b == ret.Block() || b.Dominates(ret.Block())) {
+							continue
+						}
+						for _, in := range b.Instrs {
+							ld, ok := in.(*ssa.UnOp)
+							if !ok || ld.Op != token.MUL {
+								continue
+							}
+							ia, ok := ld.X.(*ssa.IndexAddr)
+							if !ok || ia.X != ssa.Value(prm) {
+								continue
+							}
+							il, ok := fb.linOf(ia.Index, ia, 0)
+							if !ok || !il.sub(rj).isConst() || il.sub(rj).k.Sign() != 0 {
+								continue
+							}
+							return gt(fb.lenOf(ld, ret, 0), v, "result below len(param[result])"), true
+						}
+					}
+					return constraint{}, false
+				}) {
+					out = append(out, foundContract{K: k, Kind: 2, P: pi, J: j, desc: fmt.Sprintf("result #%d is a position in element #%d (result #%d) of argument #%d", k, j, j, pi)})
+				}
+			}
+		}
+	}
+	bp.foundMemo[fn] = out
+	return out
 }
